@@ -68,6 +68,8 @@ def gen_plan(seed, tier="quick", variant=None):
                     "gap": rng.choice([0, 0, 0, 1, 3, 50]), "size": rng.choice([0, 5, 30, 120, 500, 1500 if thorough else 200]),
                     "nullkey": rng.random() < 0.3, "nullval": rng.random() < 0.1, "nested": kind == "wrapper" and rng.random() < 0.15,
                     "holes": kind == "wrapper" and rng.random() < 0.3})
+        if log[-1]["magic"] == 1 and not log[-1]["nested"] and random.Random(seed * 31 + len(log)).random() < 0.3:
+            log[-1]["attrs"] = 8  # timestamp type = log append time
     big = rng.random() < (0.1 if thorough else 0.03) and variant in ("faulty", "retry", "clean", "recovery")
     buf = rng.choice([64, 128, 256, 1024, 4096, 65536])
     if big:
@@ -110,6 +112,11 @@ def gen_plan(seed, tier="quick", variant=None):
         "late_timers": random.Random(seed * 7919 + 5).choice([0.0, 0.0, 0.0, 0.002, 0.03]),
         "precommit": rng.choice([None, None, rng.randint(0, 10)]) if group else None,
     }
+    r3 = random.Random(seed * 613 + 11)
+    if discover and r3.random() < 0.4:
+        from .cluster import version_table
+        tab = version_table(*r3.choice([(3, 3), (5, 6), (8, 11), (2, 11), (9, 2)]))
+        cfg["apiversions"] = {str(n): tab for n in range(1, nb + 1)}
     if big:
         cfg["seg"] = ["coalesce", "coalesce"]
         cfg["big"] = True
@@ -296,8 +303,13 @@ def build_log(part, plan, rng):
             part.append_prebuilt(msgs, seg["magic"], True, raw)
             if seg.get("holes") and seg["magic"] == 1 and raw is None:
                 part.entries[-1].rel0 = rng.choice([0, 1, 4])
+            if raw is None:
+                part.entries[-1].attrs = seg.get("attrs", 0)
         else:
+            n0 = len(part.entries)
             part.append_prebuilt(msgs, seg["magic"], False)
+            for e_ in part.entries[n0:]:
+                e_.attrs = seg.get("attrs", 0)
         off = part.leo
 
 
@@ -537,6 +549,7 @@ def _run(w, plan):
     def _processor_body(inc, s, rec, k, msgs):
         for m in msgs:
             s["delivered"].append((m.offset, m.message.key, m.message.value, rec))
+            rec.setdefault("meta", {})[m.offset] = (m.message.magic, m.message.attributes, getattr(m.message, "timestamp", None))
         spec = proc_spec.get(k, {"mode": "sync"})
         for o in triggers["proc"].pop((k, "during"), ()):
             res.probe("op_from_inside_processor_" + o["op"])
@@ -886,6 +899,10 @@ def _oracles(w, plan, res, incs, part, state, corrupted, live_tail):
     logmsgs = part.messages()
     by_off = {m.offset: m for m in logmsgs}
     offsets_sorted = [m.offset for m in logmsgs]
+    entry_of = {}
+    for e in part.entries:
+        for m in e.msgs:
+            entry_of[m.offset] = e
     wrapper_v1 = {}
     for e in part.entries:
         if e.wrapper and e.magic == 1:
@@ -936,6 +953,18 @@ def _oracles(w, plan, res, incs, part, state, corrupted, live_tail):
                     # (delivered while the stored bytes were still damaged - e.g. only the checksum field itself was hit, so the
                     # content looks right: it still was not verified)
                     res.violate("C12", "C12:message-from-corrupted-entry-delivered", "offset %d is inside an entry whose checksummed bytes were altered" % off)
+                # C05: the rest of the message - format version, attribute bits, timestamp - as stored (when the broker served
+                # the stored format: a down- or up-converted message has no timestamp to compare)
+                meta = rec.get("meta", {}).get(off)
+                ent = entry_of.get(off)
+                if meta is not None and ent is not None and ent.raw is None and not ent.corrupt and meta[0] == ent.magic:
+                    res.oblige("C05")
+                    want_ts = m.timestamp if ent.magic == 1 else None
+                    if ent.magic == 1 and meta[2] != want_ts:
+                        res.violate("C05", "C05:timestamp-differs", "offset %d decoded with timestamp %r, stored %r" % (off, meta[2], want_ts))
+                    want_attr = ent.attrs if ent.magic == 1 else 0
+                    if meta[1] != want_attr:
+                        res.violate("C05", "C05:attributes-differ", "offset %d decoded with attributes %r, stored %r" % (off, meta[1], want_attr))
                 if prev is not None and (off <= prev[0] or any(prev[0] < x < off for x in offsets_sorted)):
                     # the offset-reset policy firing is a permitted discontinuity. The out-of-range answer may pre-date
                     # the previous delivery (a reply parked behind slow processing), so it is matched by count: each
